@@ -601,10 +601,23 @@ def overused_constant(source: str, *, root_is_static: bool) -> str:
     if f"pyrefact_overused_constant_{i}" in blacklisted_names:
         return source
 
+    def is_overused(code: str, nodes: Collection[ast.AST]) -> bool:
+        return len(nodes) >= 5 and len(re.sub(r"\s", "", code)) >= 20
+
+    # A display that is replaced takes its elements with it: replacing them as well would be an
+    # edit inside an edit. Their other occurrences still count.
+    elements_of_replaced_displays = {
+        element
+        for code, nodes in code_node_mapping.items()
+        if is_overused(code, nodes)
+        for node in nodes
+        if not isinstance(node, ast.Constant)
+        for element in core.walk(node, ast.Constant)
+    }
+
     for code, nodes in sorted(code_node_mapping.items(), key=lambda t: t[0]):
-        if len(nodes) < 5:
-            continue
-        if len(re.sub(r"\s", "", code)) < 20:
+        nodes = nodes - elements_of_replaced_displays
+        if not is_overused(code, nodes):
             continue
 
         common_scopes = set.intersection(*(scope_node_definitions[node] for node in nodes))
